@@ -330,7 +330,22 @@ func logsloglevel2Level(level logslog.Level) Level {
 	case LevelPanic:
 		return PanicLevel
 	}
-	return FatalLevel
+	// Any other value counts as the standard level below it, the way
+	// log/slog itself orders levels; only the explicit LevelFatal and
+	// LevelPanic constants may end the process.
+	if level < logslog.LevelDebug {
+		return TraceLevel
+	}
+	if level < logslog.LevelInfo {
+		return DebugLevel
+	}
+	if level < logslog.LevelWarn {
+		return InfoLevel
+	}
+	if level < logslog.LevelError {
+		return WarnLevel
+	}
+	return ErrorLevel
 }
 
 // mLevelIsEnabledAs is a replacement table of two levels.
